@@ -25,8 +25,8 @@ T = {
  'C01': ("28 kernel-checked theorems: for every in-domain request of every kind the code-shaped encoder's output parses, with an "
          "independently written MQTT 5 parser, to exactly one packet holding exactly the caller's values (enc_*_parses), remaining/"
          "property length fields exact (*_lengths), packetLen = encoded length (*_packetLen), refusal exactly for the missing-mandatory-"
-         "part cases (*_valid_iff). Whole executions (Properties/C01World): every packet the client builds is exactly one frame; everything handed to the transport is the concatenation of the submitted packets (wire_is_submitted), the W lines of every transcript are those packets (transcript_wires), no partial packet is ever left (no_wraw), every W line parses with the independent parser to the packet of a request of the script with the identifiers the library assigned (wire_lines_from_callers); refusal changes nothing (startOp_refused, connect_refused).",
-         "Partial / pending writes of the AsyncWrite half are harness policies (one/pend/pendone): the model hands whole packets to the transport, so the fragmentation clause rests on the correspondence run and the oracle. Spec/Client.lean is my reading of MQTT 5. Script-level theorems need requests inside MQTT 5's domain (ScriptInDomain, executable)."),
+         "part cases (*_valid_iff). Whole executions (Properties/C01World): every packet the client builds is exactly one frame; everything handed to the transport is the concatenation of the submitted packets (wire_is_submitted), the W lines of every transcript are those packets (transcript_wires), no partial packet is ever left (no_wraw), every W line parses with the independent parser to the packet of a request of the script with the identifiers the library assigned (wire_lines_from_callers); refusal changes nothing (startOp_refused, connect_refused). TxPacketStream::write = write_all over an ARBITRARY writer oracle (TxStream.lean, Properties/C01Tx, 19 theorems): accepted ++ remaining = packet after every poll (write_all_conserves), Ok only with the whole packet taken, an error only from the transport, Pending answers and the fragmentation invisible (delays_are_invisible, fragmentation_is_invisible), the wire after a sequence of writes = the completed packets in submission order then a proper prefix of the next (wire_is_whole_packets_then_a_proper_prefix), read back by the reference framing as exactly those packets (wire_frames_to_the_completed_packets), and under any transport a prefix of — when all writes completed equal to — the model's World.sent (any_transport_yields_the_models_wire).",
+         "Partial / pending writes of the AsyncWrite half: write_all itself is modelled and proved for every transport (C01Tx); the World model still hands whole packets to the transport (a context task suspended INSIDE a write is outside World), and the tie of write_all to the code is the correspondence run under the four writer policies one/pend/pendone/all, which mock_transport_writes_everything shows to be instances of the oracle. "),
  'C02': ("dec_of_spec (+ one theorem per packet type): for every well-formed server packet p (independent spec encoder, decidable WF) "
          "decodeRx (encodeServer p) = ok (expected p): all 11 types, all short forms, any property order, repeated user properties, "
          "standard defaults for absent properties. Whole executions (Properties/C02World, C03World): for a well-formed server packet p the observation the client logs carries exactly the SPEC-side values of p — *_accessors per packet type (DONE with reason / reason string / user properties in order / reason list, RET connack with every default spelled out, RET auth, RET disconnected or Ok for reason 0 in all three forms, the ITEM a stream yields field by field); fed_server_packet_is_decoded ties it to scripts (any chunking).",
@@ -83,6 +83,7 @@ T = {
          "unfinished — reported as KNOWN-FINDING, any other violation is reported."),
  'C16': ("pollOp_spurious, pollStream_spurious, pollCtx_spurious_running/connecting (a poll without a wakeup changes only registration flags), "
          "pending_implies_registered, wake_on_every_event, framing_pending_only_from_reader (framing_no_lost_wakeup). Whole executions (Properties/C16World, C16Fuel): in a quiescent world a spurious poll and a sweep change NOTHING (w.apply (.poll t) = w, w.sweep = w); for every script with pairwise distinct OP identifiers World.run with the sweeping executor equals World.run with the wake-only executor (sweep_irrelevant) and an inserted spurious poll only adds its own event line (spurious_poll_inserted).",
+         "The writing side (Properties/C01Tx): one poll of write_all returns Pending only when the transport itself answered Pending (it holds the waker) or has nothing more to say (write_pending_only_from_the_transport), and never calls poll_write with an empty buffer. "
          "The theorems are about the executor of PROTOCOL.md; read chunkings and write policies are compared on the implementation by the oracle (groups of scripts), and implementation = model on each."),
  'C17': ("sessionExpired_iff, resume_first_connection, resume_not_expired (re-sends exactly the queue, in order, keeps the waiters), resume_expired "
          "(re-sends nothing, drops every waiter), retx_is_unfinished / resume_resends_unfinished (the queue is the fold over the history: "
